@@ -37,6 +37,10 @@ const (
 	tyLoader      = 9
 	tyTransformer = 10
 	numTy         = 11
+	// tyNil: not a component type — the "type" of the untyped nil handed to WithLambdaOption(nil):
+	// reflect.TypeOf gives nil for it, no component has that option type, so it is of the wrong
+	// type for every component it is designated to and reaches nobody undesignated
+	tyNil = 11
 )
 
 var tyNames = []string{"none", "model", "retriever", "embedding", "prompt", "tools", "lambdaA", "lambdaB", "indexer", "loader", "transformer"}
@@ -85,6 +89,8 @@ func mkItem(ty, p int) any {
 		return document.WrapLoaderImplSpecificOptFn(sinkFn(p))
 	case tyTransformer:
 		return document.WrapTransformerImplSpecificOptFn(sinkFn(p))
+	case tyNil:
+		return nil
 	}
 	panic("harness: no option value of type none")
 }
